@@ -735,7 +735,10 @@ pub fn validate_json_for_entity(
     entity: &Entity,
     json: &Option<String>,
 ) -> Result<(), crate::database::Error> {
-    if let Some(json_str) = json {
+    //a row without content is validated like an empty object: the required fields are missing
+    let empty_object = String::from("{}");
+    {
+        let json_str = json.as_ref().unwrap_or(&empty_object);
         let json: serde_json::Value = serde_json::from_str(json_str)?;
         if !json.is_object() {
             return Err(crate::database::Error::InvalidJsonObject(
